@@ -649,6 +649,7 @@ impl WriterProp {
         let mut violation: Option<Violation> = None;
         let mut parked = false; // an unreported sink failure exists
         let mut parked_what: Option<(ErrorKind, String)> = None;
+        let mut parked_os: Option<i32> = None;
         let mut clean_from: Option<usize> = Some(0); // bytes from here on must all arrive at next Ok flush
         let mut sel = Selection {
             acc_done: 0,
@@ -800,6 +801,7 @@ impl WriterProp {
                         WRes::Err(k) => (k, SinkState::fail_msg(s.fail_seq)),
                         _ => (ErrorKind::WriteZero, String::new()),
                     });
+                    parked_os = s.last_os_error.take();
                     st.hit("fault.sink_failure_parked");
                 }
                 // reports
@@ -807,7 +809,10 @@ impl WriterProp {
                     match (rep, parked) {
                         (Ok(()), false) => {}
                         (Err((k, msg)), true) => {
-                            let (wk, wmsg) = parked_what.clone().unwrap();
+                            let (wk, mut wmsg) = parked_what.clone().unwrap();
+                            if let Some(code) = parked_os.take() {
+                                wmsg = std::io::Error::from_raw_os_error(code).to_string();
+                            }
                             if *k != wk || (wk != ErrorKind::WriteZero && *msg != wmsg) {
                                 violation = viol(
                                     name("report_once"),
